@@ -219,6 +219,7 @@ type c12Pinned struct {
 	pkg     string
 	root    string
 	values  []string // documents the generated Go types encode for `root`
+	passes  bool     // run the jsonschema language's compiler passes (InferEntrypoint, …) on the set first
 }
 
 func c12PinnedSets() []c12Pinned {
@@ -335,6 +336,36 @@ func c12PinnedSets() []c12Pinned {
 			values: []string{`{"t":{"p":"s"}}`},
 		},
 		{
+			id: "entry-lower", what: "inferred entry point: package `team`, object `team` (lower case, usual in hand-written OpenAPI): the top-level $ref has to name the definition as it is spelled",
+			pkg: "team", root: "team", passes: true,
+			schemas: ast.Schemas{c12Schema("team", "",
+				c12Obj("team", "team", ast.NewStruct(c12Field("members", ast.NewArray(ast.NewRef("team", "member")), true))),
+				c12Obj("team", "member", ast.NewStruct(c12Field("name", str, true))))},
+			values: []string{`{"members":[{"name":"a"}]}`},
+		},
+		{
+			id: "entry-snake", what: "inferred entry point: package `foo_bar`, object `Foo_bar`",
+			pkg: "foo_bar", root: "Foo_bar", passes: true,
+			schemas: ast.Schemas{c12Schema("foo_bar", "",
+				c12Obj("foo_bar", "other", ast.NewStruct(c12Field("n", i64, false))),
+				c12Obj("foo_bar", "Foo_bar", ast.NewStruct(c12Field("o", ast.NewRef("foo_bar", "other"), false))))},
+			values: []string{`{"o":{"n":1}}`, `{}`},
+		},
+		{
+			id: "entry-kebab", what: "inferred entry point: package `my-package`, object `MY-PACKAGE`",
+			pkg: "my-package", root: "MY-PACKAGE", passes: true,
+			schemas: ast.Schemas{c12Schema("my-package", "",
+				c12Obj("my-package", "MY-PACKAGE", ast.NewStruct(c12Field("s", str, true))))},
+			values: []string{`{"s":"x"}`},
+		},
+		{
+			id: "entry-camel", what: "inferred entry point: package `team`, object `Team` (control)",
+			pkg: "team", root: "Team", passes: true,
+			schemas: ast.Schemas{c12Schema("team", "",
+				c12Obj("team", "Team", ast.NewStruct(c12Field("s", str, true))))},
+			values: []string{`{"s":"x"}`},
+		},
+		{
 			id: "requirednullable", what: "nullability is not represented: a required nullable member encodes `null`",
 			pkg: "a", root: "Root",
 			schemas: ast.Schemas{
@@ -367,6 +398,18 @@ func init() {
 			}
 			id := "pin-" + p.id
 			fmt.Fprintf(out, "-\tpinned %s %s\tok\n", p.id, p.what)
+			if p.passes {
+				processed, err := jsonschema.New(jsonschema.Config{}).CompilerPasses().Process(p.schemas)
+				if err != nil {
+					fmt.Fprintf(out, "-\tpinned %s compiler passes failed: %s\tFAIL compiler-passes-error %s\n", p.id, shortErr(err), shortErr(err))
+					continue
+				}
+				p.schemas = processed
+				// an entry point is expected: the set holds an object named like its package
+				if s := c12FindSchema(p.schemas, p.pkg); s != nil && s.EntryPoint == "" {
+					fmt.Fprintf(out, "-\tpinned %s\tFAIL entry-point-not-inferred pkg=%s\n", p.id, p.pkg)
+				}
+			}
 			c12EmitRows(out, id, p.schemas, stats, true)
 			s := c12FindSchema(p.schemas, p.pkg)
 			if s == nil || c12Hung {
